@@ -488,6 +488,8 @@ def gen_timed_blocks(rng, sr, span, kind, feat):
                 il = dur * F(rng.randint(0, 4), 4)
                 b["il"] = frs(il / sr)
                 feat.add("jump-IL")
+                if il == 0:
+                    feat.add("zero:interpolationLength=0")
             else:
                 feat.add("interp-full")
         blocks.append(b)
@@ -495,22 +497,81 @@ def gen_timed_blocks(rng, sr, span, kind, feat):
     return blocks, t
 
 
+def gen_zero_timing(rng, sc, kind, feat):
+    """Timelines built around EXACT zeros in the optional numeric timing fields (all inside the quantifier: the
+    interpreters accept them): object duration 0 (the object's span [start, start+0) is empty: silence everywhere)
+    with an untimed block or with zero-length blocks, object start 0 given explicitly, rtime 0, block duration 0,
+    interpolationLength 0. Returns (blocks, object_start in frames or None, object_duration in frames or None)."""
+    sr, T = sc["sr"], sc["T"]
+    os_frames = rng.choice([None, F(0), F(0), _q(rng, 1, max(1, T // 2))])
+    if os_frames is not None:
+        feat.add("zero:object-start=0" if os_frames == 0 else "object-start")
+
+    def zero_block():
+        b = dict(rt=frs(F(0)), du=frs(F(0)), jump=0, il=None)
+        if kind == "O":
+            j = rng.choice(["interp-full", "jump-noIL", "jump-IL0"])
+            if j != "interp-full":
+                b["jump"] = 1
+            if j == "jump-IL0":
+                b["il"] = frs(F(0))
+                feat.add("zero:interpolationLength=0")
+        return b
+
+    v = rng.choice(["untimed-od0", "untimed-od0", "zero-blocks-od0", "zero-blocks", "explicit-zeros"])
+    if v == "untimed-od0":
+        feat.update(["zero:object-duration=0", "untimed-block"])
+        return [dict(rt=None, du=None, jump=0, il=None)], os_frames, F(0)
+    if v in ("zero-blocks-od0", "zero-blocks"):
+        blocks = [zero_block() for _ in range(rng.choice([1, 2, 3]))]
+        feat.update(["zero:rtime=0", "zero:block-duration=0", "zero-duration"])
+        if v == "zero-blocks-od0":
+            feat.add("zero:object-duration=0")
+            return blocks, os_frames, F(0)
+        # a zero-length block at time 0 followed by an ordinary one starting there (contiguous: ramp from it)
+        dur = _q(rng, 1, max(2, T))
+        b = dict(rt=frs(F(0)), du=frs(dur / sr), jump=0, il=None)
+        if kind == "O" and rng.random() < 0.5:
+            b["jump"], b["il"] = 1, frs(F(0))
+            feat.add("zero:interpolationLength=0")
+        return blocks + [b], os_frames, rng.choice([None, dur])
+    # ordinary timeline spelled with explicit zeros: start 0 given, first rtime 0, a jump with interpolationLength 0
+    feat.update(["zero:rtime=0", "zero:interpolationLength=0" if kind == "O" else "zero:rtime=0"])
+    d1, d2 = _q(rng, 1, max(2, T // 2 + 1)), _q(rng, 0, max(2, T))
+    b1 = dict(rt=frs(F(0)), du=frs(d1 / sr), jump=0, il=None)
+    b2 = dict(rt=frs(d1 / sr), du=frs(d2 / sr), jump=0, il=None)
+    if kind == "O":
+        b2["jump"], b2["il"] = 1, frs(F(0))
+    if d2 == 0:
+        feat.update(["zero:block-duration=0", "zero-duration"])
+    return [b1, b2], os_frames, rng.choice([None, d1 + d2])
+
+
 def gen_item(rng, sc, kind, feat):
     sr, T = sc["sr"], sc["T"]
     span = max(2, int(T * rng.choice([0.6, 1.0, 1.4])))
+    zero = rng.random() < 0.14
     os_frames = None
-    if rng.random() < 0.4:
-        os_frames = _q(rng, 0, max(1, T // 3))
-        feat.add("object-start")
-    untimed = rng.random() < (0.15 if kind == "O" else 0.5)
-    if untimed:
-        blocks, end = [dict(rt=None, du=None, jump=0, il=None)], None
-        feat.add("untimed-block")
+    if zero:
+        blocks, os_frames, od = gen_zero_timing(rng, sc, kind, feat)
+        untimed, end = None, None
     else:
-        blocks, end = gen_timed_blocks(rng, sr, span, kind, feat)
-    od = None
+        if rng.random() < 0.4:
+            os_frames = _q(rng, 0, max(1, T // 3))
+            feat.add("object-start")
+            if os_frames == 0:
+                feat.add("zero:object-start=0")
+        untimed = rng.random() < (0.15 if kind == "O" else 0.5)
+        if untimed:
+            blocks, end = [dict(rt=None, du=None, jump=0, il=None)], None
+            feat.add("untimed-block")
+        else:
+            blocks, end = gen_timed_blocks(rng, sr, span, kind, feat)
+        od = None
     k = rng.random()
-    if untimed:
+    if zero:
+        pass
+    elif untimed:
         if k < 0.5:
             od = _q(rng, 1, max(2, span))
             feat.add("object-duration")
@@ -519,6 +580,8 @@ def gen_item(rng, sc, kind, feat):
     elif k < 0.25:
         od = end
         feat.add("object-duration-exact")
+        if od == 0:
+            feat.add("zero:object-duration=0")
     elif k < 0.5:
         od = end + _q(rng, 0, 5)
         feat.add("object-duration")
